@@ -18,7 +18,7 @@ PROP = dict(
           "what the route uses, or a hop that had parallel channels with a different policy). "
           "Distinct = distinct (graph, request, phase)."),
     assumptions=[
-        "fee rates <= 1e6 ppm, |inbound rate| <= 1e6 ppm, amounts <= 2e10 msat: products fit 64 bits, so lnd's uint64/int64 fee arithmetic has no wrap-around in the generated domain",
+        "fee rates <= 1e6 ppm, |inbound rate| <= 1e6 ppm, amounts <= 7e10 msat: products fit 64 bits, so lnd's uint64/int64 fee arithmetic has no wrap-around in the generated domain",
         "for the node's own channels the bandwidth hint replaces the disabled flag (documented in graphParams.bandwidthHints); a missing hint means 'assume enough'",
         "OutgoingChannelIDs is only generated when the source is the own node (with a foreign source lnd applies the restriction to the own node's channels, not to the first hop)",
         "LastHop is not combined with blinded tails (the pathfinding target of a multi-hop blinded path is a dummy NUMS hop)",
@@ -31,10 +31,10 @@ PROP = dict(
             job("routing", "^TestVerifC19RequestRoute$", ["TestVerifC19RequestRoute"], 1500, shards=2),
         ],
         thorough=[
-            job("routing", "^TestVerifC19FindPath$", ["TestVerifC19FindPath"], 60000, shards=12,
-                timeout=1500, env=dict(VERIF_C19_REPEATS=3, VERIF_C19_ONION_EVERY=4)),
-            job("routing", "^TestVerifC19RequestRoute$", ["TestVerifC19RequestRoute"], 40000, shards=4,
-                timeout=1500),
+            job("routing", "^TestVerifC19FindPath$", ["TestVerifC19FindPath"], 40000, shards=12,
+                timeout=3000, env=dict(VERIF_C19_REPEATS=3, VERIF_C19_ONION_EVERY=4)),
+            job("routing", "^TestVerifC19RequestRoute$", ["TestVerifC19RequestRoute"], 30000, shards=4,
+                timeout=3000),
         ],
     ),
 )
